@@ -177,6 +177,23 @@ func main() {
 		ip, teid, upf := stgutg.EstablishPDU(int32(c.SST), c.SD, ue, conn, c.GnbGtpIP)
 		w.Log(world.Event{Ev: "ret", UE: 0, Info: map[string]interface{}{"ue_ip": ip.String(), "ue_ip_len": len(ip), "teid": teid, "upf_ip": upf.String(), "upf_ip_len": len(upf)}})
 		w.Summary(true)
+		if second, _ := s.Rig["second_ue"].(bool); second {
+			// a second subscriber registers and establishes its session over the same association; the
+			// caller still holds what was reported for the first one (as the traffic mode does)
+			ue2 := stgutg.CreateUE(c.IMSI, 1, c.K, c.OPC, c.OP)
+			ue2, _, _ = stgutg.RegisterUE(ue2, c.MNC, c.MCC, conn)
+			ip2, teid2, upf2 := stgutg.EstablishPDU(int32(c.SST), c.SD, ue2, conn, c.GnbGtpIP)
+			w.Log(world.Event{Ev: "ret2", UE: 1, Info: map[string]interface{}{"ue_ip": ip2.String(), "ue_ip_len": len(ip2), "teid": teid2, "upf_ip": upf2.String(), "upf_ip_len": len(upf2)}})
+			w.Log(world.Event{Ev: "ret-later", UE: 0, Info: map[string]interface{}{"ue_ip": ip.String(), "ue_ip_len": len(ip), "teid": teid, "upf_ip": upf.String(), "upf_ip_len": len(upf)}})
+			w.Summary(true)
+		}
+		if then, _ := s.Rig["then_release"].(bool); then {
+			// the caller keeps what was reported while the conversation goes on (as the traffic mode
+			// keeps its client list): release the session and deregister, then look again
+			stgutg.ReleasePDU(int32(c.SST), c.SD, ue, conn)
+			stgutg.DeregisterUE(ue, c.MNC, conn)
+			w.Log(world.Event{Ev: "ret-later", UE: 0, Info: map[string]interface{}{"ue_ip": ip.String(), "ue_ip_len": len(ip), "teid": teid, "upf_ip": upf.String(), "upf_ip_len": len(upf)}})
+		}
 	}
 	fmt.Println(">> rig finished")
 	conn.Close()
